@@ -50,7 +50,7 @@ def C19_roundtrip_statement (dbg : Bool) : Prop :=
     if the checked decoder reads `serialize b` back as `b` (whatever it leaves unread), then delivering
     `serialize b` as bytes, borrowed bytes, a byte buffer or a sequence of `u8` yields `b`.
     Missing for the full statement: the hypothesis `hC05` for every well-formed `b` (codec family). -/
-theorem C19_visit_roundtrip_partial (dbg : Bool) (b : Bitmap) (rest : List Nat)
+theorem C19_visit_roundtrip_of_decode (dbg : Bool) (b : Bitmap) (rest : List Nat)
     (hC05 : deserialize true dbg (Bitmap.serialize b) = .ok (b, rest))
     (inp : Input) (hinp : Input.payload inp = Bitmap.serialize b) : visit dbg inp = .ok b := by
   have hb : visit dbg (.bytes (Bitmap.serialize b)) = .ok b := by
@@ -65,14 +65,14 @@ theorem C19_visit_roundtrip_partial (dbg : Bool) (b : Bitmap) (rest : List Nat)
 
 /-- What a format round trip amounts to in the model: the single emitted event, handed back to the
     visitor as a byte string (postcard) or as a sequence (JSON), yields the original value. -/
-theorem C19_rt_partial (dbg : Bool) (b : Bitmap) (rest : List Nat)
+theorem C19_rt_of_decode (dbg : Bool) (b : Bitmap) (rest : List Nat)
     (hC05 : deserialize true dbg (Bitmap.serialize b) = .ok (b, rest)) :
     (match serEvents b with
      | [Event.bytes bs] => visit dbg (.bytes bs) = .ok b ∧ visit dbg (.seq bs) = .ok b
      | _ => False) := by
   simp only [C19_events]
-  exact ⟨C19_visit_roundtrip_partial dbg b rest hC05 (.bytes _) rfl,
-         C19_visit_roundtrip_partial dbg b rest hC05 (.seq _) rfl⟩
+  exact ⟨C19_visit_roundtrip_of_decode dbg b rest hC05 (.bytes _) rfl,
+         C19_visit_roundtrip_of_decode dbg b rest hC05 (.seq _) rfl⟩
 
 /-! ### unconditional: the codec round trip is `C05_decode` -/
 
@@ -107,7 +107,7 @@ theorem C19_decode (dbg : Bool) (b : Bitmap) (h : Bitmap.WF b) :
     the byte string (bytes, borrowed bytes, byte buffer, sequence of `u8`), in both build configurations. -/
 theorem C19_visit_roundtrip (dbg : Bool) (b : Bitmap) (h : Bitmap.WF b)
     (inp : Input) (hinp : Input.payload inp = Bitmap.serialize b) : visit dbg inp = .ok b :=
-  C19_visit_roundtrip_partial dbg b [] (C19_decode dbg b h) inp hinp
+  C19_visit_roundtrip_of_decode dbg b [] (C19_decode dbg b h) inp hinp
 
 /-- the full statement holds -/
 theorem C19_roundtrip (dbg : Bool) : C19_roundtrip_statement dbg :=
@@ -119,7 +119,7 @@ theorem C19_rt (dbg : Bool) (b : Bitmap) (h : Bitmap.WF b) :
     (match serEvents b with
      | [Event.bytes bs] => visit dbg (.bytes bs) = .ok b ∧ visit dbg (.seq bs) = .ok b
      | _ => False) :=
-  C19_rt_partial dbg b [] (C19_decode dbg b h)
+  C19_rt_of_decode dbg b [] (C19_decode dbg b h)
 
 /-- The serde byte string IS the standard serialisation: what the visitor accepts from `serialize` is the value,
     and a value deserialised from the emitted event re-serialises to the same event (idempotence). -/
